@@ -118,6 +118,15 @@ func vfShape(shape int) (map[string]*vfShapeRes, []vfReqKind, []vfShapeEvent) {
 		svc["test.y"] = vfShapeModel("v", `"y"`)
 		svc["test.z"] = vfShapeModel("v", `"z"`)
 		kinds = []vfReqKind{vfSub("test.p1"), vfSub("test.p2"), vfUnsub("test.p1")}
+	case 4:
+		// as shape 0, with a client get of the shared child in between
+		// (what a get hands over is not retained by the client)
+		svc["test.p1"] = vfShapeModel("a", vfRefVal("test.x"), "b", vfRefVal("test.y"))
+		svc["test.p2"] = vfShapeModel("a", vfRefVal("test.x"), "b", vfRefVal("test.z"))
+		svc["test.x"] = vfShapeModel("v", `"x"`)
+		svc["test.y"] = vfShapeModel("v", `"y"`)
+		svc["test.z"] = vfShapeModel("v", `"z"`)
+		kinds = []vfReqKind{vfSub("test.p1"), {method: "get.test.x", verb: "get", rid: "test.x"}, vfSub("test.p2"), vfUnsub("test.p1")}
 	case 1:
 		// a collection gaining a reference to a resource the client also
 		// subscribes directly, the collection being left meanwhile
